@@ -1130,7 +1130,7 @@ stringdecl(struct expr *expr)
 	if (!strings.len)
 		mapinit(&strings, 64);
 	assert(expr->kind == EXPRSTRING);
-	mapkey(&key, expr->u.string.data, expr->u.string.size);
+	mapkey(&key, expr->u.string.data, expr->type->size);
 	entry = mapput(&strings, &key);
 	d = *entry;
 	if (!d) {
